@@ -5,7 +5,8 @@
    the non-parallel build. The whole pipeline model (Model/Optimize.v) is a function of
    (zlib oracle, options, input) that only consults `best_of`, hence has no schedule parameter.
    Runtime residue (partial): interleavings inside libdeflate / zopfli / rayon finer than the two
-   shared-state accesses per trial are exercised, not modelled. *)
+   shared-state accesses per trial are exercised, not modelled.
+   ALSO: the frames of an animation are recompressed pointwise - the result for frame k depends on frame k alone (C06_frames_pointwise). *)
 From OxiVerif Require Import Base.Common Model.Types Model.Evaluate Proofs.EvalProofs.
 
 Theorem C06_schedule_result_is_best_of : forall trials init es s,
